@@ -318,7 +318,8 @@ def rule_pool_shape(chk, repo):
     chk.ob('C10.c', 'each peptide is added together with its I->L image', f.where, ok,
            f"pool.add calls {texts} are not the peptide and its I->L image added for every digested peptide", key=POOL + '::il-pairing', fn=f.qual)
     # returns the pool
-    inits = [n for n in f.node.body if isinstance(n, ast.Assign) and unparse(n.targets[0]) == POOLN]
+    inits = [n for n in f.node.body if (isinstance(n, ast.Assign) and unparse(n.targets[0]) == POOLN) or
+             (isinstance(n, ast.AnnAssign) and n.value is not None and unparse(n.target) == POOLN)]
     chk.ob('C10.c', 'returns the assembled pool', f.where, len(rets) == 1 and len(inits) == 1 and unparse(inits[0].value) == 'set()', 'pool not returned', key=POOL + '::return', fn=f.qual)
     # every protein is digested: loop advances only via next(it) after adding, or `continue` after trimming at X
     ok = isinstance(ploop, ast.While) and unparse(ploop.test) == P
